@@ -44,16 +44,12 @@ FailsGL(o) ==
                         o.tangent[tk + 1].tight /\ o.tangent[tk + 1].m = SvkTangent(tk, o.l2, o.mu, o.n, F0, F1))
                   \cup Check("svk:prediction:" \o FlavourOf(tk),
                              o.pred[tk + 1].tight /\ o.pred[tk + 1].m = SvkTangent(tk, o.l2, o.mu, o.n, F0, F0)) : tk \in 0..3}
-\* plane stress hypotheses: the stresses are those of the oracle at the complete gradient F1 (axial stretch included), whatever the
-\* axial stretch at the beginning of the step, and the axial strain written back is (a1^2 - 1) / 2
+\* plane stress hypotheses (Green-Lagrange): every obligation of the strain-driven hypotheses at the complete gradients F0, F1 (axial
+\* stretches included: the derivative with respect to the axial stretch is the derivative with respect to the imposed axial strain), and
+\* the axial strain written back is (a1^2 - 1) / 2
 FailsPS(o) ==
-  LET F0 == OfRowMajor(o.F0) F1 == OfRowMajor(o.F1) IN
-  Check("svk:scale", o.J = Det(F1) /\ o.J0 = Det(F0))
-  \cup Check("svk:plane-stress:shape", Len(o.calls) = 3 /\ \A i \in 1..Len(o.calls) : o.calls[i].sm = i - 1)
-  \cup UNION {LET c == o.calls[i] IN
-              Check("svk:plane-stress:stress:" \o MeasureName(c.sm), c.ret = 1 /\ c.tight /\ SeqEq(c.v, SvkStress(c.sm, o.l2, o.mu, F1)))
-              \cup Check("svk:plane-stress:axial-strain", c.etight /\ c.ezz2 = o.a1 * o.a1 - 1) : i \in 1..Len(o.calls)}
-  \cup Check("svk:call-failed", o.allok)
+  IF ~ShapeOK(o) THEN {"shape"}
+  ELSE ClassFails(o) \cup FailsGL(o) \cup Check("svk:plane-stress:axial-strain", o.etight /\ o.ezz2 = o.a1 * o.a1 - 1)
 FailsPSLog(o) ==
   LET c == [k |-> o.k, q |-> o.q, r |-> o.r, l2 |-> o.l2, mu |-> o.mu] IN
   Check("hencky:scale", o.ksig = HSigScale(c) /\ o.kpk2 = HPK2Scale(c) /\ o.kpk1 = HPK1Scale(c) /\ o.J0 = Det(OfRowMajor(o.F0)))
